@@ -149,12 +149,6 @@ func (c *fnCtx) mapMutations(body ast.Node) (map[*ast.Object]bool, bool) {
 				switch l.(type) {
 				case *ast.IndexExpr, *ast.StarExpr:
 					mark(l)
-				case *ast.Ident:
-					if v.Tok != token.DEFINE {
-						if id := l.(*ast.Ident); id.Obj != nil {
-							mut[id.Obj] = true
-						}
-					}
 				}
 			}
 		case *ast.IncDecStmt:
@@ -434,7 +428,26 @@ func (c *fnCtx) mapAssignCheck(st ast.Node, r ast.Expr) {
 	if c.noMapMut {
 		return
 	}
-	c.lostAt(st, "assignment of the map value %s in a function that changes maps (aliasing)", src(r))
+	// a read-only alias: neither the variable read from nor (see the callers) the one assigned
+	// is ever changed in this function
+	root := r
+	if ix, ok := root.(*ast.IndexExpr); ok {
+		root = ix.X
+	}
+	if id, ok := derefIdent(root); ok && id.Obj != nil && !c.mapMut[id.Obj] {
+		ok2 := true
+		if as, isAs := st.(*ast.AssignStmt); isAs {
+			for _, l := range as.Lhs {
+				if lid, isId := derefIdent(l); isId && lid.Obj != nil && c.mapMut[lid.Obj] {
+					ok2 = false
+				}
+			}
+		}
+		if ok2 {
+			return
+		}
+	}
+	c.lostAt(st, "assignment of the map value %s where one of the two variables is changed later (aliasing)", src(r))
 }
 
 // asNmapTo: the map value y of type from handed to a parameter of type to
@@ -526,4 +539,225 @@ var mathConsts = map[string]string{
 	"MaxUint32": "4294967295", "MaxInt32": "2147483647", "MinInt32": "(-2147483648)",
 	"MaxUint16": "65535", "MaxInt16": "32767", "MinInt16": "(-32768)",
 	"MaxUint8": "255", "MaxInt8": "127", "MinInt8": "(-128)",
+}
+
+// rangeWindow: `for ... := range xs[lo:hi]` over a window of a list-represented slice variable
+// the body does not store into: the window is bound to a list of its own (go_sub).
+func (c *fnCtx) rangeWindow(v *ast.RangeStmt, pre *[]fnBind) *fnVar {
+	se, ok := v.X.(*ast.SliceExpr)
+	if !ok || se.Slice3 {
+		return nil
+	}
+	base := c.plainVar(se.X)
+	if base == nil || base.typ.k != "slice" || base.noElems || base.typ.elem.k == "slice" {
+		return nil
+	}
+	ast.Inspect(v.Body, func(n ast.Node) bool {
+		if as, ok := n.(*ast.AssignStmt); ok {
+			for _, l := range as.Lhs {
+				if c.rootVar(l) == base {
+					c.lostAt(as, "store into %s inside a range over a window of it", base.name)
+				}
+			}
+		}
+		return true
+	})
+	lo, hi := "0", "(zlen "+base.name+")"
+	if se.Low != nil {
+		lo, _ = c.expr(se.Low, pre)
+	}
+	if se.High != nil {
+		hi, _ = c.expr(se.High, pre)
+	}
+	w, ok := c.synthWin[v]
+	if !ok {
+		w = c.newVar("win", base.typ, "local")
+		w.pos = v.Pos()
+		if c.synthWin == nil {
+			c.synthWin = map[ast.Node]*fnVar{}
+		}
+		c.synthWin[v] = w
+	}
+	bindRaw(pre, w.name, "go_sub "+base.name+" "+paren(lo)+" "+paren(hi))
+	return w
+}
+
+// desugarLabels rewrites, in place and once per function,
+//
+//	L: for ... { ...; for ... { ... continue L ... }; rest }
+//
+// into
+//
+//	for ... { ...; cont_L := false; for ... { ... { cont_L = true; break } ... }; if cont_L { continue }; rest }
+//
+// (likewise `break L`, and `continue L`/`break L` directly in the body of the labelled loop).  A label
+// used in any other way stays, and the function is lost.
+func (g *fnGen) desugarLabels(fd *ast.FuncDecl) {
+	if g.desugared == nil {
+		g.desugared = map[*ast.FuncDecl]bool{}
+	}
+	if g.desugared[fd] || fd.Body == nil {
+		return
+	}
+	g.desugared[fd] = true
+	var doBlock func(b *ast.BlockStmt)
+	doBlock = func(b *ast.BlockStmt) {
+		for i, s := range b.List {
+			if ls, ok := s.(*ast.LabeledStmt); ok {
+				if r := desugarLabel(ls); r != nil {
+					b.List[i] = r
+				}
+			}
+		}
+		for _, s := range b.List {
+			ast.Inspect(s, func(n ast.Node) bool {
+				if bb, ok := n.(*ast.BlockStmt); ok {
+					doBlock(bb)
+					return false
+				}
+				return true
+			})
+		}
+	}
+	doBlock(fd.Body)
+}
+
+func loopBody(s ast.Node) *ast.BlockStmt {
+	switch v := s.(type) {
+	case *ast.ForStmt:
+		return v.Body
+	case *ast.RangeStmt:
+		return v.Body
+	}
+	return nil
+}
+
+func desugarLabel(ls *ast.LabeledStmt) ast.Stmt {
+	body := loopBody(ls.Stmt)
+	if body == nil {
+		return nil
+	}
+	label := ls.Label.Name
+	ok := true
+	var newList []ast.Stmt
+	// uses outside every inner loop become a plain continue/break
+	var plain func(n ast.Node, inLoop bool)
+	plain = func(n ast.Node, inLoop bool) {
+		ast.Inspect(n, func(x ast.Node) bool {
+			if x == nil {
+				return false
+			}
+			if lb := loopBody(x); lb != nil && x != n {
+				plain(lb, true)
+				return false
+			}
+			switch v := x.(type) {
+			case *ast.SwitchStmt, *ast.SelectStmt, *ast.TypeSwitchStmt:
+				ast.Inspect(v, func(y ast.Node) bool {
+					if br, isBr := y.(*ast.BranchStmt); isBr && br.Label != nil && br.Label.Name == label {
+						ok = false
+					}
+					return true
+				})
+				return false
+			case *ast.BranchStmt:
+				if v.Label != nil && v.Label.Name == label {
+					if inLoop || (v.Tok != token.CONTINUE && v.Tok != token.BREAK) {
+						ok = false
+					} else {
+						v.Label = nil
+					}
+				}
+			}
+			return true
+		})
+	}
+	for _, s := range body.List {
+		inner := loopBody(s)
+		if inner == nil {
+			plain(s, false)
+			newList = append(newList, s)
+			continue
+		}
+		// an inner loop: uses of the label directly in its body become { flag = true; break }
+		var conts, brks []*ast.BranchStmt
+		var scan func(n ast.Node, depth int)
+		scan = func(n ast.Node, depth int) {
+			ast.Inspect(n, func(x ast.Node) bool {
+				if x == nil {
+					return false
+				}
+				if lb := loopBody(x); lb != nil && x != n {
+					scan(lb, depth+1)
+					return false
+				}
+				switch v := x.(type) {
+				case *ast.SwitchStmt, *ast.SelectStmt, *ast.TypeSwitchStmt:
+					ast.Inspect(v, func(y ast.Node) bool {
+						if br, isBr := y.(*ast.BranchStmt); isBr && br.Label != nil && br.Label.Name == label {
+							ok = false
+						}
+						return true
+					})
+					return false
+				case *ast.BranchStmt:
+					if v.Label != nil && v.Label.Name == label {
+						if depth > 0 {
+							ok = false
+						} else if v.Tok == token.CONTINUE {
+							conts = append(conts, v)
+						} else if v.Tok == token.BREAK {
+							brks = append(brks, v)
+						} else {
+							ok = false
+						}
+					}
+				}
+				return true
+			})
+		}
+		scan(inner, 0)
+		var after []ast.Stmt
+		mk := func(name string, uses []*ast.BranchStmt, tok token.Token) {
+			if len(uses) == 0 {
+				return
+			}
+			obj := ast.NewObj(ast.Var, name)
+			id := func(pos token.Pos) *ast.Ident { return &ast.Ident{NamePos: pos, Name: name, Obj: obj} }
+			decl := &ast.AssignStmt{Lhs: []ast.Expr{id(s.Pos() - 1)}, TokPos: s.Pos() - 1, Tok: token.DEFINE, Rhs: []ast.Expr{&ast.Ident{NamePos: s.Pos() - 1, Name: "false"}}}
+			obj.Decl = decl
+			newList = append(newList, decl)
+			for _, u := range uses {
+				replaceStmt(inner, u, &ast.BlockStmt{Lbrace: u.Pos(), List: []ast.Stmt{
+					&ast.AssignStmt{Lhs: []ast.Expr{id(u.Pos())}, TokPos: u.Pos(), Tok: token.ASSIGN, Rhs: []ast.Expr{&ast.Ident{NamePos: u.Pos(), Name: "true"}}},
+					&ast.BranchStmt{TokPos: u.Pos(), Tok: token.BREAK},
+				}, Rbrace: u.End()})
+			}
+			after = append(after, &ast.IfStmt{If: s.End(), Cond: id(s.End()),
+				Body: &ast.BlockStmt{Lbrace: s.End(), List: []ast.Stmt{&ast.BranchStmt{TokPos: s.End(), Tok: tok}}, Rbrace: s.End()}})
+		}
+		mk("cont_"+label, conts, token.CONTINUE)
+		mk("brk_"+label, brks, token.BREAK)
+		newList = append(newList, s)
+		newList = append(newList, after...)
+	}
+	if !ok {
+		return nil
+	}
+	body.List = newList
+	return ls.Stmt
+}
+
+// replaceStmt replaces the statement old by new in whatever block of n it sits in
+func replaceStmt(n ast.Node, old, new ast.Stmt) {
+	ast.Inspect(n, func(x ast.Node) bool {
+		if b, ok := x.(*ast.BlockStmt); ok {
+			for i, s := range b.List {
+				if s == old {
+					b.List[i] = new
+				}
+			}
+		}
+		return true
+	})
 }
